@@ -20,7 +20,7 @@ ASSUMPTIONS = ['width-1 and width-2 characters only (python unicodedata east_asi
                'characters with a drawing meaning (keys of the ascii/unicode property tables of the tree) may or may not be text']
 FLOORS = {'quick': {'distinct_nontrivial': 3000, 'shape_label_documents': 500}, 'thorough': {'distinct_nontrivial': 60000, 'shape_label_documents': 5000}}
 LAB = "abzé日ЖkñД字"
-DRAW = "-|+/.'"
+DRAW = "-|+/.'\u2019"
 
 
 def check_case(ctx, case):
@@ -39,13 +39,21 @@ def check_case(ctx, case):
     except Malformed as e:
         return 'output not parseable: %s' % e
     grid = []
-    for row in rows:
+    quotes = {}
+    for y, row in enumerate(rows):
         cols = {}
         c = 0
         for ch in row:
             cols[c] = ch
             c += cw(ch)
+        colist = gen.columns(row)
+        for a, b in gen.quoted_segments(colist):
+            quotes[(a, y)] = ''.join(x for x in colist[a + 1:b] if x != '\0')
+            for k in range(a, b + 1):
+                if k in cols:
+                    cols[k] = cols[k] if k == a else ' '   # the quoted region is not ordinary cells
         grid.append(cols)
+    ctx.extra.setdefault('_quotes', {})[id(case)] = quotes
     nontriv = any(ord(ch) > 0x7f and (cols.get(c - 1, ' ') in ' ' + DRAW or cols.get(c + cw(ch), ' ') in ' ' + DRAW)
                   for cols in grid for c, ch in cols.items())
     ctx.note(key_of(rows), nontriv, 'rows_%d' % len(rows))
@@ -59,6 +67,16 @@ def check_case(ctx, case):
             return 'text %r anchored at (%s,%s), not at the sub-cell point of a cell' % (e[4], e[2], e[3])
         cx, cy = int(cx), int(cy)
         c = cx
+        if 0 <= cy < len(grid) and grid[cy].get(cx) == '"' and (cx, cy) in ctx.extra.get('_quotes', {}).get(id(case), {}):
+            # a quoted segment: one text element at the cell of the opening quote, content = the characters up to
+            # the closing quote
+            want = ctx.extra['_quotes'][id(case)][(cx, cy)]
+            if e[4] != want:
+                return 'quoted text at cell (%d,%d) shows %r, the input has %r' % (cx, cy, e[4], want)
+            if (cx, cy) in covered:
+                return 'the quoted segment at (%d,%d) is shown twice' % (cx, cy)
+            covered[(cx, cy)] = '"'
+            continue
         for ch in e[4]:
             have = grid[cy].get(c) if 0 <= cy < len(grid) else None
             if have != ch:
@@ -132,6 +150,14 @@ def run_shard(ctx, shard):
         h = rng.randint(1, 5)
         pl = rng.choice([0.3, 0.5, 0.7])
         rows = [''.join(rng.choice(LAB) if rng.random() < pl else (rng.choice(DRAW) if rng.random() < 0.3 else ' ') for _ in range(w)) for _ in range(h)]
+        if i % 7 == 3:
+            # quoted segments (with multi-byte, double-width and zero-width characters) followed by labels
+            q = ''.join(rng.choice('ab é\u0301日\u200bЖ-|') for _ in range(rng.randint(1, 5)))
+            y = rng.randrange(len(rows))
+            rows[y] = rows[y][:rng.randint(0, len(rows[y]))].replace('"', '') + '"' + q + '" ' + rng.choice(['ab', 'k9', 'zb a'])
+            ctx.run_case({'rows': rows})
+            ctx.tag('documents_with_quoted_text')
+            continue
         if i % 5 == 4:
             prev = [''.join(rng.choice(LAB + DRAW + '  ') for _ in range(rng.randint(1, 12))) for _ in range(rng.randint(1, 5))]
             ctx.run_case({'rows': rows, 'previous': prev})
